@@ -142,7 +142,7 @@ def load_case(ctx: Ctx):
     ctx.pending = next((g for g in gens if isinstance(g, C.Pending)), None)
     ctx.gen_names = [g.name for g in gens]  # the configured order
     if ctx.opts.get("record_generators", True):
-        gens = tuple(C.Recorder(g, ctx.gen_log) for g in gens)
+        gens = tuple(C.record(g, ctx.gen_log) for g in gens)
     rp = set_instruction_generators(rp, gens)
     ctx.handler = make_handler(ctx)
     rp.e.reporter.add_handler(ctx.handler)
@@ -167,6 +167,32 @@ def cosim_ops(ctx: Ctx, rp, k: int):
         return rp
     r = C._rng(ctx.case.get("case_seed", 0), "cosim", k)
     kind = r.choice(o.get("kinds", ["scale_rate"]))
+    if kind == "try_move":
+        # a client rebuilds a station or base from other coordinates and hands it back in a batch (with an unrelated, valid
+        # change next to it): stations and bases do not move, the batch has to be refused as a whole
+        import dataclasses
+
+        sids, bids = rp.s.get_station_ids(), rp.s.get_base_ids()
+        if not sids:
+            return rp
+        # preferably one that is in use
+        used = sorted({getattr(v.vehicle_state, "station_id", None) for v in rp.s.vehicles.values()} - {None})
+        sid = r.choice(used) if used and r.random() < 0.7 else r.choice(sids)
+        st = rp.s.stations[sid]
+        other = rp.s.stations[r.choice(sids)]
+        moved = dataclasses.replace(st, position=other.position if other.geoid != st.geoid else rp.s.vehicles[r.choice(rp.s.get_vehicle_ids())].position)
+        batch = [moved]
+        if bids and r.random() < 0.5:
+            b = rp.s.bases[r.choice(bids)]
+            batch = [dataclasses.replace(b, position=moved.position)] + ([moved] if r.random() < 0.5 else [])
+        if all(e.geoid == (rp.s.stations.get(e.id) or rp.s.bases.get(e.id)).geoid for e in batch):
+            return rp
+        res = modify_entities_safe(rp, batch)
+        ctx.count("cosim_attempts_to_move_a_station_or_base")
+        if isinstance(res, Failure):
+            ctx.count("cosim_moves_refused")
+            return rp
+        return res.unwrap()
     if kind == "change_request_membership":
         # the operator opens a waiting request to one more fleet (Request.add_membership + modify_entities), preferably
         # one that already has a vehicle on its way
@@ -352,8 +378,20 @@ def run_trace(case: Dict[str, Any]) -> Dict[str, Any]:
                 # generators it already has (runner_payload_ops.set_instruction_generators)
                 from nrel.hive.runner.runner_payload_ops import set_instruction_generators
 
-                rp = set_instruction_generators(rp, tuple(rp.u.step_update.ordered_instruction_generators))
-                ctx.count("cosim_noop_generator_swaps")
+                gens_now = tuple(rp.u.step_update.ordered_instruction_generators)
+                if (k // int(ctx.opts["cosim_noops"])) % 2 == 1 and len(gens_now) > 1:
+                    # ... or gets one generator (not the last one) and puts it back, as examples/cosim_custom_dispatcher.py does
+                    from nrel.hive.runner.runner_payload_ops import update_instruction_generator_safe
+                    from returns.result import Failure as _F
+
+                    cand = [g for g in gens_now[:-1] if type(g).__name__ == g.name]
+                    res_ = update_instruction_generator_safe(rp, cand[0]) if cand else _F(Exception("no generator to put back"))
+                    if not isinstance(res_, _F):
+                        rp = res_.unwrap()
+                        ctx.count("cosim_noop_single_generator_put_back")
+                else:
+                    rp = set_instruction_generators(rp, gens_now)
+                    ctx.count("cosim_noop_generator_swaps")
             if ctx.opts.get("cosim_ops"):
                 rp = cosim_ops(ctx, rp, k)
                 ctx.prev = rp.s
